@@ -37,7 +37,7 @@ def setup(tier):
 def cases(tier, seed):
     out = []
     classes = [gen.class_name(c) for c in gen.concrete_kit_classes()]
-    per = 40 if tier == "quick" else 1500
+    per = 40 if tier == "quick" else 5000
     for c in classes:
         out.append({"kind": "kit", "cls": c, "seed": seed, "count": per})
     for e in gen.enzyme_names():
@@ -45,7 +45,7 @@ def cases(tier, seed):
     its = regs.items()
     for j in range(0, len(its), 20):
         out.append({"kind": "registry", "from": j, "to": min(len(its), j + 20), "seed": seed})
-    out += _embedded.assembly_cases(seed, 48 if tier == "quick" else 2400, features=False)
+    out += _embedded.assembly_cases(seed, 48 if tier == "quick" else 9600, features=False)
     out += _embedded.registry_assembly_cases(seed, per_vector=1 if tier == "quick" else 6)
     if tier == "thorough":
         out.append({"kind": "repo-tests"})
